@@ -153,6 +153,7 @@ class C09:
         r = get_ex("asan" if single else "fast").run(s, cpu=30, wall=120)
         t = by_index(r.trace)
         fails, keys, cc = [], [], {}
+        crashed = False
         for (start, seq), mk in zip(subs, marks):
             names = [OPS[k][0] for k in seq]
             targets = [n.split(" ")[1].split("[")[0].split("|")[0].split("=")[0] for n in names]
@@ -163,6 +164,10 @@ class C09:
             sig, msg = self.judge(start, seq, mk, t)
             if sig is None:
                 continue
+            if sig == "no-result" and not single:
+                if crashed:
+                    continue
+                crashed = True
             if not single:
                 o1 = self.check_case({"subs": [[start, seq]]}, get_ex)
                 if o1.failure:
